@@ -12,6 +12,10 @@ dataset at output_path (both halves, complete) has atoms == the given inputs, ea
 the sample name that belongs to that file; the same after stopping at EVERY step boundary and resuming from the saved
 plan (load / load_combiner / new_combiner, also with a changed branch factor / batch size), after a crash at every
 operation inside save() (resume from the plan or from '.bak'), and after a process death at any operation of run().
+The same oracle in the merge-task-limit regime ("every ... batch size"): thousands of import intervals (the genome default
+partitioning, import_interval_size, custom lists) x batch sizes below / at / above limit // #intervals (150 000 tasks), with
+more GVCFs queued than one capped step would take; batch size given to the constructor / new_combiner (gvcf_batch_size or
+the deprecated batch_size), assigned through the public gvcf_batch_size setter at a step boundary, or overridden on resume.
 Oracle (partitioning): for every listed contig the base sets [start(+1 if open), end(-1 if open)] of the returned
 intervals are disjoint, in order, cover 1..len exactly once, stay on one contig, and end - start <= interval_size.
 """
@@ -33,7 +37,14 @@ RULE = (
     '(save, step, ...); at EVERY step boundary the file system is snapshotted and the run is resumed from the saved plan in the '
     'snapshot; at every boundary every operation of save() is made to crash / raise OSError and the run is resumed from plan or .bak; '
     'phase runcrash: the real run() is killed at every numbered FS/engine operation (all of them for small cases, a seeded sample '
-    'otherwise) and resumed. Distinct by (#gvcfs, VDS sample counts, branch, batch, header mode, constructor, number of steps).'
+    'otherwise) and resumed. Distinct by (#gvcfs, VDS sample counts, branch, batch, header mode, constructor, number of steps). '
+    'phase tasklimit: #import intervals n in 1500-7500 (thorough: up to 30000) from use_genome_default_intervals / import_interval_size '
+    '(the real calculate_even_genome_partitioning on GRCh38) / a custom list; cap = merge-task limit // n; batch size chosen relative to cap '
+    '(cap-10..cap-1, cap, cap+1..3*cap, 50, 100), branch 2-10 with cap*branch <= 200, #gvcfs relative to cap*branch and batch*branch (below, equal, '
+    'between, above, several full steps, +-1; <= 600), 0-2 VDS; batch size passed to the constructor / new_combiner (either keyword), assigned by the '
+    'public setter at boundary 0/1, or overridden by new_combiner on resume; driven as run() does; at every boundary with GVCFs queued (and the next one) '
+    'the FS is snapshotted and the run resumed from the saved plan (load / load_combiner / new_combiner with overrides, rotating). More than the limit '
+    'itself in intervals (limit // n == 0) is not generated. Distinct by (n, #gvcfs, VDS, branch, batch, setter, header, interval mode, constructor, steps).'
 )
 ASSUMPTIONS = [
     'vf/sim/fake_hl.py models the engine: read/write/combine propagate column provenance, MatrixTable.write refuses an existing path '
@@ -42,6 +53,10 @@ ASSUMPTIONS = [
     'interval length is read as end - start (DESIGN C38); intervals holding interval_size+1 bases are counted, not judged',
     'calc_parts treats contigs independently, so a focus table (other contigs at length 2) shows what the full table would give; '
     'cross-checked at run time for sizes where both are affordable',
+    'task-limit phase: the engine fake evaluates the row function of Table._generate for 5 of the thousands of import intervals (first, last, '
+    'evenly spaced; the length of the context and partition lists is still compared in full); the plan is written only at boundaries that are '
+    'resumed from (every boundary while GVCFs are queued) instead of before every step of the dataset-only tail; the step bound allows a step to '
+    'take min(batch, limit // #intervals) * branch GVCFs (what the public setter would clamp to)',
 ]
 TRUSTED_BASE = ['vf/sim/fake_hl.py (provenance-propagating engine fake, fake FS with overwrite/_SUCCESS semantics)']
 SHARDS = {'quick': 4, 'thorough': 16}
@@ -59,6 +74,15 @@ def FLOORS(tier):
         'partition_calls': 1500 if q else 15000,
         'contigs_checked': 30000 if q else 300000,
         'refused_existing_output': 1,
+        # merge-task-limit regime (phase tasklimit)
+        'tasklimit_runs': 12 if q else 150,
+        'tasklimit_resumes': 40 if q else 500,
+        'tasklimit_final_datasets_checked': 50 if q else 600,
+        'gvcf_steps_over_task_limit_with_backlog': 7 if q else 90,   # batch x #intervals > limit AND more GVCFs queued than (limit // #intervals) * branch
+        'gvcf_steps_over_task_limit_not_last': 2 if q else 30,
+        'setter_clamped': 1 if q else 15,
+        'tasklimit_step_classes': 5 if q else 7,
+        'tasklimit_interval_modes': 3 if q else 4,
     }
 
 
@@ -322,10 +346,43 @@ def step_bound(comb):
     G = len(comb._gvcfs)
     b = comb._branch_factor
     batch = comb._gvcf_batch_size
+    # a step may legitimately merge fewer GVCFs than gvcf_batch_size * branch_factor when batch size x import intervals is
+    # above the combiner's own merge-task limit (the public setter clamps to limit // #intervals): the bound allows for it
+    limit, n_int = task_limit(comb), len(comb._gvcf_import_intervals or ())
+    if limit and n_int:
+        batch = max(1, min(batch, limit // n_int))
     D = comb._num_vdses + (G + b - 1) // b
     gsteps = (G + b * batch - 1) // (b * batch)
     vsteps = max(1, -(-(max(D, 1) - 1) // (b - 1)))
     return gsteps + vsteps + 2
+
+
+def task_limit(comb_or_cls):
+    """the combiner's own bound on (GVCF batch size x number of import intervals); None if it has none"""
+    v = getattr(comb_or_cls, '_gvcf_merge_task_limit', None)
+    return v if isinstance(v, int) and v > 0 else None
+
+
+_INTERVAL_CACHE = {}
+
+
+def many_intervals(rg, k):
+    """k import intervals that tile chr1 (built once per process: the combiner never mutates them)"""
+    import hail as hl
+
+    key = (rg.name, k)
+    if key not in _INTERVAL_CACHE:
+        L = rg.lengths['chr1']
+        w = L // k
+        assert w >= 2
+        out = []
+        pos = 1
+        for j in range(k):
+            end = L if j == k - 1 else pos + w - 1
+            out.append(hl.Interval(hl.Locus('chr1', pos, rg), hl.Locus('chr1', end, rg), includes_end=True))
+            pos = end + 1
+        _INTERVAL_CACHE[key] = out
+    return list(_INTERVAL_CACHE[key])
 
 
 class Harness:
@@ -368,6 +425,8 @@ class Harness:
         pos = 1
         L = rg.lengths['chr1']
         k = self.c.n_intervals
+        if k > 16:
+            return many_intervals(rg, k)
         for j in range(k):
             end = L if j == k - 1 else pos + L // k
             out.append(hl.Interval(hl.Locus('chr1', pos, rg), hl.Locus('chr1', end, rg), includes_end=True))
@@ -386,10 +445,16 @@ class Harness:
                 vds_paths=[p for p, _, _ in c.vds] or None,
                 vds_sample_counts=[n for _, n, _ in c.vds] if (c.counts_given and c.vds) else None,
                 gvcf_external_header=header, gvcf_sample_names=names, branch_factor=bf, target_records=c.target_records,
-                gvcf_batch_size=batch, reference_genome=self.rg, contig_recoding=c.recoding,
+                reference_genome=self.rg, contig_recoding=c.recoding,
             )
+            kw[getattr(c, 'batch_kw', 'gvcf_batch_size')] = batch   # 'batch_size' is the deprecated spelling
+            imode = getattr(c, 'interval_mode', 'custom')
             if c.size_mode:
                 kw['use_exome_default_intervals'] = True
+            elif imode == 'genome_default':
+                kw['use_genome_default_intervals'] = True
+            elif imode == 'import_size':
+                kw['import_interval_size'] = c.import_size
             else:
                 kw['intervals'] = self.intervals(vdc) if c.gvcfs else None
             return vdc.new_combiner(**kw)
@@ -454,9 +519,28 @@ class Harness:
 
     def describe(self):
         c = self.c
-        return {'n_gvcfs': len(c.gvcfs), 'vds_samples': [n for _, n, _ in c.vds], 'branch_factor': c.bf, 'gvcf_batch_size': c.batch,
-                'external_header': c.external, 'via_new_combiner': c.via_new, 'counts_given': c.counts_given,
-                'resume_bf': c.resume_bf, 'resume_batch': c.resume_batch, 'n_intervals': c.n_intervals}
+        d = {'n_gvcfs': len(c.gvcfs), 'vds_samples': [n for _, n, _ in c.vds], 'branch_factor': c.bf, 'gvcf_batch_size': c.batch,
+             'external_header': c.external, 'via_new_combiner': c.via_new, 'counts_given': c.counts_given,
+             'resume_bf': c.resume_bf, 'resume_batch': c.resume_batch, 'n_intervals': c.n_intervals}
+        if hasattr(c, 'interval_mode'):   # task-limit phase
+            d.update(interval_mode=c.interval_mode, import_interval_size=c.import_size, batch_keyword=c.batch_kw,
+                     batch_size_assigned_at_boundary=dict(c.setter), merge_task_limit=c.limit, limit_div_intervals=c.cap)
+        return d
+
+    def note_step(self, comb):
+        """observation only: is this GVCF step in the regime batch size x import intervals > the merge-task limit?"""
+        G = len(comb._gvcfs)
+        n_int = len(comb._gvcf_import_intervals or ())
+        limit = task_limit(comb)
+        if not (G and n_int and limit):
+            return
+        self.ctx.count('gvcf_steps_with_1000+_import_intervals', 1 if n_int >= 1000 else 0)
+        if comb._gvcf_batch_size * n_int > limit:
+            self.ctx.count('gvcf_steps_over_task_limit')
+            if G > (limit // n_int) * comb._branch_factor:
+                self.ctx.count('gvcf_steps_over_task_limit_with_backlog')
+            if G > comb._gvcf_batch_size * comb._branch_factor:
+                self.ctx.count('gvcf_steps_over_task_limit_not_last')
 
     # ---- driving ------------------------------------------------------------------------
     def finish(self, comb, w, how, saving=True):
@@ -469,15 +553,18 @@ class Harness:
             while not comb.finished:
                 if steps >= bound:
                     return ('bound', steps)
-                if saving:
+                if saving is True or (saving == 'gvcf' and comb._gvcfs):   # 'gvcf': while GVCFs are queued only
                     comb.save()
+                self.note_step(comb)
                 comb.step()
                 steps += 1
                 self.ctx.count('steps')
-            if saving:
+            if saving is True:
                 comb.save()
         except FatalError as e:
             return ('fatal:' + str(e)[:160], steps)
+        except (IndexError, ZeroDivisionError, KeyError, ValueError, TypeError, AssertionError) as e:
+            return ('raised:' + repr(e)[:160], steps)
         return 'finished', steps
 
     def load(self, vdc, w, path, mode):
@@ -539,6 +626,9 @@ class Harness:
                 self.ctx.count('refused_partial_output(crash inside final write; not judged)')
                 return 'refused-partial'
             self.report([('resume/engine-error', f'{how}: {status}', {})], extra)
+            return status
+        if status.startswith('raised:'):
+            self.report([('merge/step-raises', f'{how}: a step {status}', {})], extra)
             return status
         self.ctx.count('final_datasets_checked')
         self.report(self.judge_output(w, how), extra)
@@ -674,6 +764,7 @@ def plan_case(ctx, case, rgs, types_, rng):
             if k >= bound:
                 H.report([('termination/step-bound-exceeded', f'uninterrupted run not finished after {k} steps (bound {bound})', {})], {'bound': bound})
                 break
+            H.note_step(comb)
             try:
                 comb.step()
             except FatalError as e:
@@ -692,6 +783,161 @@ def plan_case(ctx, case, rgs, types_, rng):
         ctx.seen('steps_per_run', k)
     c = case
     ctx.case(sample=H.describe(), key=(len(c.gvcfs), tuple(n for _, n, _ in c.vds), c.bf, c.batch, c.external, c.via_new, k), nontrivial=k >= 1)
+
+
+# ============================================================================================
+# merge plan in the merge-task-limit regime: GVCF batch size x number of import intervals around / above the combiner's
+# own limit (150 000), with more GVCFs queued than (limit // #intervals) * branch factor
+# ============================================================================================
+def gen_limit_case(rng, limit, n_for_size, genome_default_size, quick=True):
+    """batch size, branch factor and #GVCFs are chosen RELATIVE to cap = limit // #intervals:  batch below / at / above cap,
+    #GVCFs below / at / between / above cap*bf and batch*bf (one step, several steps, exact multiples and neighbours)"""
+    c = Case()
+    c.limit = limit
+    r = rng.random()
+    c.import_size = None
+    if r < 0.25:
+        c.interval_mode, n = 'genome_default', n_for_size(genome_default_size)
+    elif r < 0.45:
+        c.interval_mode = 'import_size'
+        c.import_size = rng.choice([1_000_000, 1_000_000, 1_100_000, 800_000] + ([] if quick else [600_000, 500_000]))
+        n = n_for_size(c.import_size)
+    else:
+        c.interval_mode = 'custom'
+        n = rng.choice([1501, 1875, 2000, 2500, 3000, rng.randrange(1500, 3001), rng.randrange(1500, 3001)])
+        if rng.random() < 0.1:
+            n = rng.choice([3750, 5000, 7500] + ([] if quick else [10000, 15000, 30000]))
+    c.n_intervals = n
+    c.cap = cap = max(1, limit // n)
+    c.bf = rng.choice([2, 2, 3, 4, 5, 10])
+    while cap * c.bf > 200 and c.bf > 2:
+        c.bf -= 1
+    r = rng.random()
+    if r < 0.76:   # above the limit
+        big = rng.choice([cap + 1, cap + 2, cap + rng.randrange(1, cap + 2), 2 * cap, 2 * cap + 1, 3 * cap, max(cap + 1, 50), max(cap + 1, 100)])
+    elif r < 0.88:  # exactly at it
+        big = cap
+    else:
+        big = max(1, cap - rng.randrange(1, min(cap, 10) + 1))
+    a, b = cap * c.bf, big * c.bf
+    G = rng.choice([b + rng.randrange(1, b + 1), 2 * b, 2 * b + 1, 2 * b - 1, b + 1, b, b - 1, rng.randrange(a, max(b, a) + 1), a + 1, a + c.bf,
+                    a + rng.randrange(1, a + 1), a, a - 1, 3 * b - rng.randrange(0, c.bf + 1)])
+    G = max(1, min(G, 600))
+    V = rng.choice([0, 0, 0, 1, 2])
+    c.vds = [(f'gs://in/v{j:02d}.vds', rng.choice([rng.randrange(1, 12), rng.randrange(1, 5001)]), rng.random() < 0.6) for j in range(V)]
+    ids = list(range(G))
+    rng.shuffle(ids)
+    c.gvcfs = [f'gs://in/sample_{j:04d}.g.vcf.bgz' for j in ids]
+    c.own_name = {p: 'S' + p[-14:-10] for p in c.gvcfs}
+    c.external = rng.random() < 0.5
+    c.ext_name = {p: 'X' + p[-14:-10] for p in c.gvcfs}
+    c.via_new = c.interval_mode != 'custom' or rng.random() < 0.5
+    c.batch_kw = 'batch_size' if (c.via_new and rng.random() < 0.2) else 'gvcf_batch_size'
+    c.counts_given = rng.random() < 0.6
+    c.size_mode = False
+    c.recoding = {'1': 'chr1'} if rng.random() < 0.3 else None
+    c.target_records = rng.choice([24000, 1000])
+    # how the batch size gets its value: constructor / new_combiner argument (never clamped), or the public
+    # `gvcf_batch_size` setter at a step boundary (clamps), or the new_combiner override on resume (never clamped)
+    c.batch = big
+    c.setter = {}
+    r = rng.random()
+    if r < 0.25:
+        c.batch = max(1, min(big, cap) - rng.randrange(0, 4))
+        c.setter[rng.choice([0, 0, 1])] = big
+    elif r < 0.33:
+        c.setter[1] = max(1, cap - rng.randrange(0, 3))
+    lo = max(1, cap // 2)
+    c.resume_bf = rng.choice([c.bf, c.bf, c.bf + 1, max(2, c.bf - 1)])
+    c.resume_batch = rng.choice([big, big, cap + 1, 2 * cap + 3, cap, max(lo, cap - 1), max(lo, c.batch), 3 * cap])
+    return c
+
+
+def limit_case(ctx, case, rgs, types_, rng):
+    """driven as run() does (save, step, ...); at every boundary with GVCFs still queued (and the one after) the FS is
+    snapshotted and the run is resumed from the saved plan; same oracle as everywhere: termination + output == inputs"""
+    from hail.utils import FatalError
+
+    H = Harness(ctx, case, rgs, types_, rng)
+    w = H.world()
+    w.context_sample = 5
+    sink = io.StringIO()
+    with w.install() as vdc, contextlib.redirect_stdout(sink):
+        comb = H.construct(vdc)
+        n_int = len(comb._gvcf_import_intervals)
+        limit = case.limit
+        ctx.seen('tasklimit_interval_modes', case.interval_mode + ('/new_combiner' if case.via_new else '/constructor'))
+        ctx.count('tasklimit_import_intervals', n_int)
+        if n_int != case.n_intervals:
+            ctx.inconclusive_because(f'task-limit phase: expected {case.n_intervals} import intervals, the combiner holds {n_int}')
+        k = 0
+        deadline = step_bound(comb)
+        had_gvcfs = True
+        rot = ['load', 'load_combiner'] + (['new_combiner'] if case.via_new else [])
+        r0 = rng.randrange(3)
+        later = 0
+        while True:
+            fin = comb.finished
+            if k in case.setter:
+                v = case.setter[k]
+                comb.gvcf_batch_size = v       # the public setter
+                ctx.count('setter_assignments')
+                if comb._gvcf_batch_size != v:
+                    ctx.count('setter_clamped')
+                deadline = k + step_bound(comb)
+            G = len(comb._gvcfs)
+            if G:
+                over = comb._gvcf_batch_size * n_int > limit
+                ctx.seen('tasklimit_step_classes', ('over' if over else 'at' if (comb._gvcf_batch_size + 1) * n_int > limit else 'under') + '/'
+                         + ('gvcfs<=cap*bf' if G <= case.cap * comb._branch_factor else 'gvcfs<=batch*bf' if G <= comb._gvcf_batch_size * comb._branch_factor
+                            else 'gvcfs>batch*bf'))
+            resume_here = not fin and (G or had_gvcfs)
+            if not fin and not resume_here and later < 1 and rng.random() < 0.1:
+                resume_here = True
+                later += 1
+            if resume_here or fin:
+                # run() saves before every step; writing a plan with thousands of intervals costs ~0.1 s, so at boundaries of
+                # the dataset-only tail (the regime of the 'plan' phase) the plan is written only where it is resumed from
+                comb.save()
+            if resume_here:
+                modes = [rot[(k + r0) % len(rot)]]   # one way of resuming per boundary, rotating
+                for mode in modes:
+                    f = clone_fs(w.fs)
+                    with swap_fs(w, f):
+                        st = H.resume_and_judge(vdc, w, f'stop after step {k}, save, {mode}', mode, [H.SAVE],
+                                                {'boundary': k, 'resume_mode': mode, 'gvcfs_queued': G, 'n_import_intervals': n_int},
+                                                saving='gvcf' if (k + r0) % 2 == 0 else False)
+                        ctx.count('tasklimit_resumes')
+                        if st == 'finished':
+                            ctx.count('tasklimit_final_datasets_checked')
+            if fin:
+                break
+            if k >= deadline:
+                H.report([('termination/step-bound-exceeded', f'uninterrupted run not finished after {k} steps (bound {deadline})', {})], {'bound': deadline})
+                break
+            had_gvcfs = bool(G)
+            H.note_step(comb)
+            try:
+                comb.step()
+            except FatalError as e:
+                H.report([('merge/engine-error', f'step {k + 1} failed: {str(e)[:200]}', {})], {'boundary': k})
+                break
+            except (IndexError, ZeroDivisionError, KeyError, ValueError, TypeError, AssertionError) as e:
+                H.report([('merge/step-raises', f'step {k + 1} raised {e!r}', {})], {'boundary': k})
+                break
+            k += 1
+            ctx.count('steps')
+        if comb.finished:
+            ctx.count('final_datasets_checked')
+            ctx.count('tasklimit_final_datasets_checked')
+            H.report(H.judge_output(w, 'uninterrupted run'), {'steps': k, 'n_import_intervals': n_int})
+        ctx.count('tasklimit_runs')
+        ctx.count('gvcf_tables_generated', w.counters.get('generate', 0))
+        ctx.count('generate_contexts_not_evaluated(sampled)', w.counters.get('generate_contexts_not_evaluated', 0))
+        ctx.count('dataset_merges', w.counters.get('combine_variant_datasets', 0))
+    c = case
+    ctx.case(sample=H.describe(), key=('tasklimit', n_int, len(c.gvcfs), tuple(n for _, n, _ in c.vds), c.bf, c.batch, tuple(sorted(c.setter.items())),
+                                       c.external, c.interval_mode, c.via_new, k), nontrivial=k >= 1)
 
 
 def runcrash_case(ctx, case, rgs, types_, rng):
@@ -763,6 +1009,7 @@ def run(ctx):
 
     t_start = time.time() - ctx.t0   # importing hail without bytecode caching costs ~10 s; budgets count from here
     budget = ctx.pick(150, 900)     # safety net only (a loaded machine); the case counts below are the normal limit
+    extra = ctx.pick(40, 200)       # on top, for the task-limit phase
     rgs = {'GRCh38': load_reference(B.REPO, 'GRCh38')}
     types_ = make_types(rgs['GRCh38'])
 
@@ -773,9 +1020,27 @@ def run(ctx):
         ctx.set_time_budget(t_start + 0.70 * budget)
         for i, rng in ctx.cases(ctx.pick(12, 70), 'runcrash'):
             runcrash_case(ctx, gen_case(rng, small=True), rgs, types_, rng)
+        # ---- merge-task-limit regime
+        from hail.vds.combiner.combine import calculate_even_genome_partitioning
+        from hail.vds.combiner.variant_dataset_combiner import VariantDatasetCombiner
+
+        limit = task_limit(VariantDatasetCombiner)
+        if limit is None:
+            ctx.count('no_merge_task_limit_in_this_tree')
+            limit = 150_000    # the regime is still the one with the most merge tasks per step
+        n_cache = {}
+
+        def n_for_size(size):
+            if size not in n_cache:
+                n_cache[size] = len(calculate_even_genome_partitioning(rgs['GRCh38'], size))
+            return n_cache[size]
+
+        ctx.set_time_budget(t_start + 0.70 * budget + extra)
+        for i, rng in ctx.cases(ctx.pick(6, 24), 'tasklimit'):
+            limit_case(ctx, gen_limit_case(rng, limit, n_for_size, VariantDatasetCombiner.default_genome_interval_size, ctx.quick), rgs, types_, rng)
     except FakeEngineGap as e:
         ctx.inconclusive_because(f'the combiner used an engine feature the provenance fake does not model: {e}')
-    ctx.set_time_budget(t_start + budget)
+    ctx.set_time_budget(t_start + budget + extra)
     if ctx.replay is None or ctx.replay.get('phase') == 'partition':
         partition_phase(ctx)
 
